@@ -9,17 +9,18 @@ MANIFEST = dict(
     technique="TLA+ spec (OrmSessionExt.tla EXTENDS OrmSession.tla) + TLC exhaustive model checking; spec->code replay of every state-graph edge into a real Session with real pickle round trips")
 
 INVS = ["OneIdentity", "OnePerObject"]
-PROPS = ["PickleCopy", "PickleSelf"]
-FOOTPRINT = ["Pickle", "Add", "Delete", "SetV", "Expire", "ExpireV", "Expunge", "Read", "Refresh", "Flush", "Commit", "Rollback"]
+PROPS = ["PickleCopy", "PickleSelf", "PickleOptValue"]
+FOOTPRINT = ["Pickle", "PickleOpt", "Add", "Delete", "SetV", "Expire", "ExpireV", "Expunge", "Read", "Refresh", "Flush", "Commit", "Rollback"]
 
 
 def spec(chk):
     q = chk.quick
     return dict(
-        cfgs=[dict(name="pickle", acts=["SetV", "Expire", "ExpireV", "Expunge", "Read", "Refresh", "Pickle"], depth=5 if q else 6, edge_sample=0.5,
+        cfgs=[dict(name="pickle", acts=["SetV", "Expire", "ExpireV", "Expunge", "Read", "Refresh", "Pickle", "PickleOpt"], depth=5 if q else 6, edge_sample=0.5,
+                   edge_probs={"PickleOpt": 0.25},
                    deep_depth=6 if q else 7, eoc=True, protos=(2, 3, 4, 5), random=200 if q else 2000)],
         invs=INVS, props=PROPS, footprint=FOOTPRINT,
-        nontrivial=lambda frm, act: act["a"] == "Pickle")
+        nontrivial=lambda frm, act: act["a"] in ("Pickle", "PickleOpt"))
 
 
 def main(chk):
